@@ -333,6 +333,8 @@ type verifC31Scn struct {
 	permit   [3]int
 	parked   [3]bool
 	parkedAt [3]time.Time
+	rgate    [3]bool // hold the sender at the report write
+	rparked  [3]bool
 	opened   bool // all gates open for good
 	pend     [3]int
 	lastN    [3]int
@@ -476,6 +478,13 @@ func (sc *verifC31Scn) process(ev string, b *pktBuffer, a []any) {
 		n := a[0].(int64)
 		sc.emit("Report", "s", s, "amt", n)
 		sc.repSh += n
+		// the hook sits between reading the counter and conn.Write: holding the sender here is
+		// holding it inside the report write
+		for sc.rgate[s] && !sc.opened {
+			sc.rparked[s] = true
+			sc.cond.Wait()
+		}
+		sc.rparked[s] = false
 	case "ReportErr":
 		n := a[0].(int64)
 		sc.emit("ReportErr", "s", s, "amt", n)
@@ -1018,6 +1027,36 @@ func verifC31Overdue(sc *verifC31Scn) {
 	sc.quiesce(1, 2)
 }
 
+// drops keep arriving while the primary sender is inside the write of the drop report: both
+// buffers are full, sender 1 is released, writes its batch and is held at the report write (its
+// freshly emptied write slice is filled again first), further packets are dropped, then everything
+// is released; every dropped byte must have been reported at quiescence
+func verifC31ReportRace(sc *verifC31Scn) {
+	sc.setGate(1, true)
+	sc.setGate(2, true)
+	sc.burst(40+sc.rnd.Intn(40), true)
+	sc.waitParked(1)
+	sc.burst(600+sc.rnd.Intn(200), true) // fills both, fails over, drops
+	sc.mu.Lock()
+	sc.rgate[1] = true
+	sc.mu.Unlock()
+	sc.setGate(1, false) // sender 2 stays held before its write, its write slice full
+	if !sc.waitFor(5*time.Second, func() bool { return sc.rparked[1] }, nil) {
+		sc.note("sender 1 did not reach the report write (owed=%d)", sc.owed)
+	}
+	sc.burst(230+sc.rnd.Intn(120), true) // 200 refill sender 1's write slice, the rest are dropped
+	sc.mu.Lock()
+	sc.rgate[1] = false
+	sc.cond.Broadcast()
+	sc.mu.Unlock()
+	sc.setGate(2, false)
+	sc.quiesce(1, 2)
+	if sc.rnd.Intn(2) == 0 {
+		sc.burst(1+sc.rnd.Intn(50), true)
+		sc.quiesce(1, 2)
+	}
+}
+
 // Close with packets still buffered; calls after Close are rejected and counted
 func verifC31CloseMid(sc *verifC31Scn) {
 	sc.burst(1+sc.rnd.Intn(300), true)
@@ -1123,6 +1162,8 @@ func verifC31RunJob(j verifC31Job, seed int64) (*verifC31Scn, error) {
 		verifC31CloseMid(sc)
 	case "overdue":
 		verifC31Overdue(sc)
+	case "reportrace":
+		verifC31ReportRace(sc)
 	case "beh":
 		verifC31Behaviour(sc, j.beh)
 	}
@@ -1160,6 +1201,9 @@ func TestVerifC31(t *testing.T) {
 	}
 	for i := 0; i < verifkit.EnvInt("VERIF_NOVERDUE", 1); i++ {
 		jobs = append(jobs, verifC31Job{kind: "overdue"})
+	}
+	for i := 0; i < verifkit.EnvInt("VERIF_NREPORTRACE", 2); i++ {
+		jobs = append(jobs, verifC31Job{kind: "reportrace"})
 	}
 	for i := 0; i < verifkit.EnvInt("VERIF_NNEWEGRESS", 1); i++ {
 		jobs = append(jobs, verifC31Job{kind: "newegress"})
